@@ -76,8 +76,11 @@ def read_file(path: Path, tk: Tokens, metas: dict):
         o = outs[name]
         ds, df = tk.mat(o.data)
         as_, af = tk.mat(o.actions)
-        one = Output.from_file(path, name)
-        agree = np.array_equal(one.data, o.data, equal_nan=True) and np.array_equal(np.asarray(one.actions, dtype=float), np.asarray(o.actions, dtype=float), equal_nan=True)
+        try:                                   # the single-name reader must see what the all-names reader sees, after every save
+            one = Output.from_file(path, name)
+            agree = np.array_equal(one.data, o.data, equal_nan=True) and np.array_equal(np.asarray(one.actions, dtype=float), np.asarray(o.actions, dtype=float), equal_nan=True)
+        except Exception:  # noqa: BLE001
+            return 0, []
         exp = metas.get(name)
         got = {k: v for k, v in raw[name]["metadata"].items()}
         recs.append({"name": name, "dshape": ds, "dflat": df, "ashape": as_, "aflat": af,
